@@ -218,6 +218,18 @@ func verifProducer() *Producer {
 	return NewProducerWithOptions(cfg.WithNoZstd())
 }
 
+// verifProducerOpt: producers with different public options (0 default, 1 no dictionaries + unsorted spans,
+// 2 8-bit dictionary limit).
+func verifProducerOpt(k int) *Producer {
+	switch k {
+	case 1:
+		return NewProducerWithOptions(cfg.WithNoZstd(), cfg.WithNoDictionary(), cfg.WithOrderSpanBy(cfg.OrderSpanByNothing))
+	case 2:
+		return NewProducerWithOptions(cfg.WithNoZstd(), cfg.WithUint8LimitDictIndex())
+	}
+	return verifProducer()
+}
+
 func verifConsumer() *Consumer {
 	return NewConsumer(WithMeterProvider(noop.NewMeterProvider()))
 }
@@ -226,7 +238,11 @@ func verifConsumer() *Consumer {
 func verifRoundTrip(p *Producer, c *Consumer, td ptrace.Traces, tag string) {
 	orig := ptrace.NewTraces()
 	td.CopyTo(orig)
+	rt.WatchBegin("input", td)
+	h0 := rt.WatchHits()
 	bar, err := p.BatchArrowRecordsFromTraces(td)
+	rt.Assert(rt.WatchHits() == h0, "C15.frame_input.traces_untouched")
+	rt.WatchEndTag("input")
 	rt.Assert(err == nil, tag+".encode_ok")
 	if err != nil {
 		return
